@@ -378,6 +378,12 @@ def run(prog, ctx):
 
     # ------------------------------------------------------------------ D6
     check_public_quadrature(prog, ctx)
+    # ------------------------------------------------------------------ D4 (shared with C14.D7): per-area results restart on every evaluation
+    from .C14 import check_area_value_reset
+    check_area_value_reset(prog, ctx, "C05.D4")
+    # ------------------------------------------------------------------ D7, D8
+    check_no_accumulator_alias(prog, ctx)
+    check_no_stop_after_refine(prog, ctx)
 
 
 def check_public_quadrature(prog, ctx):
@@ -440,3 +446,75 @@ def _check_removed_flow(prog, ctx, fi, rule="C05.D2", key=None):
               "the objects returned by apply_remove are handed to operation.process_removed_objects",
               "%s removes refinement objects but does not hand the removed objects to operation.process_removed_objects: their "
               "contribution stays in the combined result" % fi.qual)
+
+
+ACCUMULATOR_ATTRS = {"value", "integral"}
+
+
+def check_no_accumulator_alias(prog, ctx):
+    """D7: a partial result (an area's / container's `value`, the operation's `integral`) is never bound to another name or attribute
+    WITHOUT a copy and then updated in place: `x = area.value; x -= ...` rewrites the area's contribution, which is later subtracted
+    from / added to the combined result."""
+    n = 0
+    for fi in prog.functions.values():
+        if fi.module.name not in ("GridOperation", "spatiallyAdaptiveBase", "spatiallyAdaptiveExtendSplit", "spatiallyAdaptiveSingleDimension2",
+                                  "spatiallyAdaptiveCell", "RefinementContainer", "RefinementObject", "StandardCombi", "DimAdaptiveCombi"):
+            continue
+        if not any(a in fi.module.source for a in (".value", ".integral")):
+            continue
+        aliases = []          # (target ast, statement)
+        for st in walk_local(fi.node):
+            if isinstance(st, ast.Assign) and len(st.targets) == 1 and isinstance(st.value, ast.Attribute) and st.value.attr in ACCUMULATOR_ATTRS \
+                    and isinstance(st.targets[0], (ast.Name, ast.Attribute)):
+                tg = st.targets[0]
+                if isinstance(tg, ast.Attribute) and tg.attr in ACCUMULATOR_ATTRS:
+                    continue                                          # handing a result over to another accumulator is judged elsewhere
+                aliases.append((tg, st))
+        if not aliases:
+            continue
+        c = cfg_of(fi)
+        for (tg, st) in aliases:
+            n += 1
+            ctx.touch(fi)
+            tdump = ast.dump(tg).replace("Store()", "Load()")
+            bad = None
+            sn = c.node_of(st)
+            for n2 in c.nodes:
+                if n2.kind == "stmt" and isinstance(n2.ast, ast.AugAssign) and ast.dump(n2.ast.target).replace("Store()", "Load()") == tdump \
+                        and sn is not None and n2.idx in c.reachable_after(sn):
+                    bad = n2
+            ctx.check(bad is None, "C05.D7", R.key_of(fi, "alias:%s" % src(tg)), fi.loc(st),
+                      "`%s` is bound to a partial result without a copy but is never updated in place" % src(tg),
+                      "`%s` binds `%s` to the partial result itself (no copy) and `%s` (line %d) then updates it in place: the area's / operation's "
+                      "accumulated value is overwritten" % (src(st), src(tg), src(bad.ast) if bad is not None else "", bad.ast.lineno if bad is not None else 0))
+    ctx.note("C05.D7", "package::accumulator-aliases", "sparseSpACE/*", "%d un-copied bindings of partial results analysed" % n)
+
+
+def check_no_stop_after_refine(prog, ctx):
+    """D8: the value reported at a stop belongs to the refinement the driver stopped in: after `self.refine(...)` every path to the end of
+    continue_adaptive_refinement passes the next evaluation (no stop test between a refinement and its evaluation)."""
+    car = prog.func(BASE + ".continue_adaptive_refinement")
+    ctx.touch(car)
+    c = cfg_of(car)
+    def events(name):
+        """calls self.<name>(...) and calls that receive the bound method self.<name> as an argument (timing wrappers)"""
+        out = []
+        for call in [n_ for n_ in walk_local(car.node) if isinstance(n_, ast.Call)]:
+            hit = isinstance(call.func, ast.Attribute) and call.func.attr == name and R.attr_chain(call.func.value) == [car.self_name]
+            for a_ in call.args:
+                if isinstance(a_, ast.Attribute) and a_.attr == name and R.attr_chain(a_.value) == [car.self_name]:
+                    hit = True
+            if hit:
+                out.append(R.cfg_node(car, call))
+        return out
+    refs = events("refine")
+    evals = events("evaluate_operation")
+    ctx.floor("C05.D8", len(refs), 1, "refine calls in the adaptive driver")
+    for k, rn in enumerate(refs):
+        ok = bool(evals) and c.must_pass_through(rn, [c.exit], evals)
+        wit = None if ok else c.path_avoiding(rn, [c.exit], evals)
+        line = next((getattr(w.ast, "lineno", None) for w in (wit or []) if getattr(w, "ast", None) is not None and isinstance(w.ast, ast.Break)), None)
+        ctx.check(ok, "C05.D8", R.key_of(car, "evaluated-after-refine#%d" % k), car.loc(rn.ast),
+                  "after a refinement the driver cannot stop before the refined structure has been evaluated",
+                  "continue_adaptive_refinement can leave the loop after self.refine(...) without evaluating the refined structure (break at line %s): "
+                  "the reported value belongs to the previous refinement, scheme and points to the new one" % line)
